@@ -31,6 +31,13 @@ M128 = U128 - 1
 M256 = U256 - 1
 
 
+ONLY_WORLD = None   # set by replay: only this world index of a shard is regenerated
+
+
+def skip_world(wi):
+    return ONLY_WORLD is not None and wi != ONLY_WORLD
+
+
 class Inconclusive(Exception):
     pass
 
